@@ -30,6 +30,8 @@ structure Facts where
   topLevelUsesLimit : Bool
   -- C05: allocations sized by a wire length / count come after the size check of their case clause
   allocAfterSizeCheck : Bool
+  -- D26: `Decode` allocates the pointee of an optional fixed-size field only after the length check
+  pointeeAfterLengthCheck : Bool
   allocSitesSized : Nat
   -- C06: allocations carry the size / alignment / GC type of one type node; pointerful kinds are typed
   typedAllocOK : Bool
